@@ -15,8 +15,29 @@ against the real ``get_impulse_response`` (A-FFT), index sets written out from t
     C07.outside_supports_hz    |freq[b]| < 2.5 * THRESHOLD for every bin whose frequency (mod rate,
                                mirrored for real banks) is outside [f_lo, f_hi]
     C07.support_shape          zero-phase: lo < 0 < hi; causal (not max_centered) gammatone: lo == 0
+    C07.same_object            (sessions) the statement quantifies over all filters and all buffer widths of ONE
+                               bank: a bank object that has already answered other requests (other widths,
+                               half=True requests whose output has the same length, truncated responses, the same
+                               request before) returns exactly what a freshly built bank of the same configuration
+                               returns (A-DET), arrays handed out earlier are neither changed by later calls nor
+                               shared with them, and overwriting a returned array does not change later answers.
+                               All clauses above are evaluated on the reused object's answers as well.
+
+Case kinds: ``{"bank", "filt", "width"}`` (one buffer on a fresh bank; ``width`` may be given as
+``{"mult", "plus"}`` relative to w0) and ``{"bank", "filt", "ops": [[op, width], ...]}`` (a session: the
+requests are made in that order on one bank object; op in check / half / full / trunc / imp, where ``check``
+evaluates every clause on (get_impulse_response, get_frequency_response) at that width).
+
+Triangular impulse responses have two code paths (the wider half of the triangle is factored out): the
+right-heavy one (right - mid > mid - left) is the only reachable one on the strictly concave mel / octave
+scales, the other one is taken by about half of the filters of a linear scale (halves equal up to rounding)
+and by the Bark filters that straddle one of the scale's two break points (2 and 20.1 Bark).  The run
+visits the library's default configurations (40 filters, 16 kHz, 20 Hz..Nyquist) of every bank class and
+scale with ALL filters, sweeps Bark banks over num_filts at 8 / 16 kHz for the straddling filters, and
+reports the number of filters checked on each path per scale in a note.
 """
 import math
+import time
 import warnings
 
 import numpy as np
@@ -85,8 +106,9 @@ def _w0(bank, k):
     return int(max(int(hi) - int(lo) + 1, math.ceil(2.0 * rate / (float(fhi) - float(flo)))))
 
 
-def _check(bank, spec, k, w, thr):
-    """All clauses on one (filter, buffer width).  Returns (failures, nontrivial, info)."""
+def _check(bank, spec, k, w, thr, keep=None):
+    """All clauses on one (filter, buffer width).  Returns (failures, nontrivial, info).
+    `keep` (a dict) receives the two arrays as returned by the library (sessions compare them with a fresh bank's)."""
     kind = spec["bank"]
     info = {}
     if not _in_domain(spec):
@@ -119,6 +141,8 @@ def _check(bank, spec, k, w, thr):
             fr = np.asarray(bank.get_frequency_response(k, w))
         except Exception as e:
             return fails + [("C07.idft_matches_impulse", f"{type(e).__name__} raised while computing the responses: {e}")], True, info
+    if keep is not None:
+        keep["imp"], keep["full"] = imp, fr
     if imp.shape != (w,) or fr.shape != (w,):
         return fails + [("C07.idft_matches_impulse", f"shapes impulse {imp.shape}, frequency {fr.shape} for width {w}")], True, info
     # --- real exactly when is_real --------------------------------------------------------------
@@ -169,6 +193,150 @@ def _check(bank, spec, k, w, thr):
     return out, nontrivial, info
 
 
+def _tri_branch(bank, k):
+    """Which of the two code paths of the triangular impulse response filter k takes, decided here from the
+    vertices the bank advertises: ("right", ratio) when right - mid > mid - left, else ("left", ratio) with
+    ratio = (right - mid) / (mid - left)."""
+    rate = float(bank.sampling_rate)
+    l, r = (float(x) * 2 * math.pi / rate for x in bank.supports_hz[k])
+    m = float(bank.centers_hz[k]) * 2 * math.pi / rate
+    ratio = (r - m) / (m - l) if m > l else float("inf")
+    return ("right" if r - m > m - l else "left"), ratio
+
+
+def _same(a, b):
+    a, b = np.asarray(a), np.asarray(b)
+    return a.dtype == b.dtype and a.shape == b.shape and bool(np.array_equal(a, b))
+
+
+def _request(bank, k, op, w):
+    """One of the plain requests of a session; returns a tuple of arrays / ints."""
+    with warnings.catch_warnings():
+        warnings.simplefilter("ignore")
+        if op == "half":
+            return (np.asarray(bank.get_frequency_response(k, w, half=True)),)
+        if op == "full":
+            return (np.asarray(bank.get_frequency_response(k, w)),)
+        if op == "imp":
+            return (np.asarray(bank.get_impulse_response(k, w)),)
+        if op == "trunc":
+            st, tr = bank.get_truncated_response(k, w)
+            return (np.asarray(int(st)), np.asarray(tr))
+    raise ValueError(op)
+
+
+def _check_session(F, S, spec, k, ops, thr):
+    """The requests `ops` = [[op, width], ...] made in this order on ONE bank object.  Every `check` evaluates all
+    clauses of the statement on the reused object's answers; every answer is also compared with that of a bank
+    built freshly for this single request.  Returns (failures, nontrivial, info)."""
+    bank = _build(F, S, spec)
+    fails, info = [], {"ops": len(ops)}
+    nontrivial = False
+    held = []  # (description, array as returned, private copy)
+    history = []
+
+    def hist():
+        return ", ".join(f"{o}({w})" for o, w in history[-6:]) or "none"
+
+    def compare(op, w, got, fresh):
+        for i, (a, b) in enumerate(zip(got, fresh)):
+            if not _same(a, b):
+                a, b = np.asarray(a), np.asarray(b)
+                if a.shape == b.shape and a.shape:
+                    j = int(np.argmax(np.abs(a - b)))
+                    where = f"first/largest difference at index {j}: {a[j]!r} vs {b[j]!r}"
+                else:
+                    where = f"shape/dtype {a.shape}/{a.dtype} vs {b.shape}/{b.dtype}; values {a!r:.60} vs {b!r:.60}"
+                fails.append(("C07.same_object", f"filter {k}: request #{len(history)} {op}({w}) on a bank that already answered [{hist()}] differs from a fresh bank's answer ({where})"))
+                return
+
+    def one(op, w, tag=""):
+        nonlocal nontrivial
+        try:
+            if op == "check":
+                keep = {}
+                f, nt, inf = _check(bank, spec, k, w, thr, keep=keep)
+                nontrivial = nontrivial or nt
+                for c, m in f:
+                    fails.append((c, f"[request #{len(history)}{tag} check({w}) after {hist()}] {m}"))
+                for key in ("idft_over_thr", "t_out_over_thr", "f_out_over_thr"):
+                    if key in inf:
+                        info[key] = max(info.get(key, 0.0), inf[key])
+                if "imp" in keep:
+                    got = (keep["imp"], keep["full"])
+                    fb = _build(F, S, spec)
+                    with warnings.catch_warnings():
+                        warnings.simplefilter("ignore")
+                        fresh = (np.asarray(fb.get_impulse_response(k, w)), np.asarray(_build(F, S, spec).get_frequency_response(k, w)))
+                    compare(op, w, got, fresh)
+                else:
+                    got = ()
+            else:
+                got = _request(bank, k, op, w)
+                fresh = _request(_build(F, S, spec), k, op, w)
+                compare(op, w, got, fresh)
+                for a in got:
+                    if not np.all(np.isfinite(a)):
+                        fails.append(("C07.idft_matches_impulse", f"non-finite values in {op}({w})"))
+        except Exception as e:
+            fails.append(("C07.same_object", f"request #{len(history)} {op}({w}) after [{hist()}] raised {type(e).__name__}: {e}"))
+            got = ()
+        for a in got:
+            if isinstance(a, np.ndarray) and a.ndim == 1:
+                held.append((f"{op}({w}) #{len(history)}", a, a.copy()))
+        history.append((op, w))
+
+    for op, w in ops:
+        one(str(op), int(w))
+        if len(fails) > 6:
+            break
+    # arrays handed out earlier: unchanged by later calls, not sharing memory with each other
+    for i, (d, a, c) in enumerate(held):
+        if not _same(a, c):
+            fails.append(("C07.same_object", f"the array returned by {d} was changed by a later call"))
+            break
+    for i in range(len(held)):
+        for j in range(i + 1, len(held)):
+            if np.may_share_memory(held[i][1], held[j][1]) and np.shares_memory(held[i][1], held[j][1]):
+                fails.append(("C07.same_object", f"the arrays returned by {held[i][0]} and {held[j][0]} share memory"))
+                break
+        else:
+            continue
+        break
+    # overwrite everything that was handed out, then ask again
+    if len(fails) <= 6:
+        for d, a, c in held:
+            if a.flags.writeable:
+                a[...] = np.nan
+        seen = set()
+        for op, w in ops:
+            if op == "check" and w not in seen and len(seen) < 3:
+                seen.add(w)
+                one("check", int(w), tag=" (after the returned arrays were overwritten)")
+    seen, out = set(), []
+    for c, m in fails:
+        if c not in seen:
+            seen.add(c)
+            out.append((c, m))
+    return out, nontrivial, info
+
+
+def _session_ops(w0, rng, wcap):
+    """Requests for one filter: each buffer width w is asked for around half=True requests whose output has the
+    same length w (DFT widths 2(w-1) and 2w-1), in both orders, repeated, with truncated / impulse requests in
+    between, and the earlier requests again at the end in a seeded order."""
+    a, b = w0, w0 + 1
+    c = int(rng.integers(w0, 3 * w0 + 1))
+    d = int(rng.integers(w0, 2 * w0 + 1))
+    ops = []
+    for w in (a, b, c):
+        ops += [["half", 2 * (w - 1)], ["check", w], ["half", 2 * w - 1], ["check", w]]
+    ops += [["check", d], ["half", 2 * (d - 1)], ["half", 2 * d - 1], ["trunc", d], ["imp", d], ["check", d]]
+    tail = [["check", a], ["check", b], ["check", c], ["half", 2 * (a - 1)], ["full", a], ["imp", b], ["trunc", c], ["full", 2 * w0], ["half", 2 * w0]]
+    ops += [tail[i] for i in rng.permutation(len(tail))]
+    return [op for op in ops if 2 <= op[1] <= wcap]
+
+
 def replay(case):
     F, S, config = _mods()
     thr = float(config.EFFECTIVE_SUPPORT_THRESHOLD)
@@ -177,6 +345,11 @@ def replay(case):
     except Exception as e:
         return False, f"C07.idft_matches_impulse: constructor raised {type(e).__name__}: {e}"
     k = int(case["filt"])
+    if case.get("ops") is not None:
+        fails, nontrivial, info = _check_session(F, S, case["bank"], k, [[str(o), int(w)] for o, w in case["ops"]], thr)
+        if fails:
+            return False, "; ".join(f"{c}: {m}" for c, m in fails)
+        return True, f"holds ({'non-trivial' if nontrivial else 'outside the domain of the statement'}; {info})"
     w = case.get("width")
     if w is None:  # width given relative to w0: {"mult": 2, "plus": 0}
         w = _w0(bank, k) * int(case.get("mult", 1)) + int(case.get("plus", 0))
@@ -300,6 +473,164 @@ def run(tier, seed):
         core.append(spec)
     # the very narrow Gabor filters whose temporal support is degenerate
     core.append({"bank": "gabor", "scale": {"name": "octave", "low_hz": 20.0}, "num_filts": 40, "rate": 16000, "low_hz": 20.0, "high_hz": None, "erb": False, "l2": False})
+    # the library's default configuration (40 filters, 16 kHz, 20 Hz .. Nyquist) of every bank class on every scale
+    defaults = []
+    for bank, flag_list in (
+        ("tri", [{"analytic": False}, {"analytic": True}]),
+        ("fbank", [{"analytic": False}, {"analytic": True}]),
+        ("gabor", [{"erb": False, "l2": False}]),
+        ("gamma", [{"order": 4, "max_centered": False, "erb": False, "l2": False}]),
+    ):
+        for scale in SCALES if bank != "fbank" else [{"name": "mel"}]:
+            for flags in flag_list:
+                spec = {"bank": bank, "scale": scale, "num_filts": 40, "rate": 16000, "low_hz": 20.0, "high_hz": None}
+                spec.update(flags)
+                defaults.append(spec)
+
+    branch = {}  # scale name -> {"right": n, "left": n, "min": smallest (right-mid)/(mid-left) on the left path}
+    seen_tri = set()
+
+    def tally(bank, spec, k):
+        key = _common.jsonable((spec, k))
+        key = repr(key)
+        if key in seen_tri:
+            return
+        seen_tri.add(key)
+        which, ratio = _tri_branch(bank, k)
+        b = branch.setdefault(spec["scale"]["name"], {"right": 0, "left": 0, "min": 1.0, "material": 0})
+        b[which] += 1
+        if which == "left":
+            b["min"] = min(b["min"], ratio)
+            b["material"] += ratio < 1 - 1e-6
+
+    def left_heavy(bank, n):
+        """Filters of a triangular bank on the rarely taken path, most asymmetric first."""
+        out = []
+        for k in range(n):
+            which, ratio = _tri_branch(bank, k)
+            if which == "left":
+                out.append((ratio, k))
+        return [k for _, k in sorted(out)]
+
+    def build(spec):
+        try:
+            return _build(F, S, spec)
+        except Exception as e:
+            col.case({"bank": spec, "filt": -1, "width": 0}, nontrivial=True)
+            col.fail("C07.idft_matches_impulse", {"bank": spec, "filt": 0, "width": None, "mult": 1}, f"constructor raised {type(e).__name__}: {e}")
+            return None
+
+    def visit(bank, spec, filts, mults=((1, 0), (1, 1), (2, 0), (4, 0))):
+        for k in filts:
+            if col.out_of_time():
+                break
+            try:
+                w0 = _w0(bank, k)
+            except Exception as e:
+                col.case({"bank": spec, "filt": k, "width": 0}, nontrivial=True)
+                col.fail("C07.outside_supports_hz", {"bank": spec, "filt": k, "width": None, "mult": 1}, f"supports unusable: {type(e).__name__}: {e}")
+                continue
+            counts["filters"] += 1
+            done = False
+            for m, p in mults:
+                w = m * w0 + p
+                if w > wcap:
+                    counts["capped"] += 1
+                    continue
+                do(bank, spec, k, w)
+                done = True
+            if done and spec["bank"] == "tri":
+                tally(bank, spec, k)
+
+    # --- A. default configurations, every filter ------------------------------------------------------
+    phase_t = {}
+    t_a = time.time()
+    for spec in defaults:
+        if col.out_of_time() or col.too_many_failures():
+            break
+        bank = build(spec)
+        if bank is None:
+            continue
+        counts["banks"] += 1
+        counts["defaults"] = counts.get("defaults", 0) + 1
+        visit(bank, spec, range(spec["num_filts"]))
+
+    # --- B. Bark banks whose filters straddle a break point of the scale (rarely taken path of the triangular
+    #        impulse response): num_filts 16..18 at 8 kHz with every filter, then a sweep over num_filts and
+    #        seeded ranges with the filters on that path (and one neighbour on the usual path)
+    phase_t['defaults'] = time.time() - t_a
+    t_b = time.time()
+    sweep = []
+    for n in (16, 17, 18):
+        for a in (False, True):
+            sweep.append(({"bank": "tri", "scale": {"name": "bark"}, "num_filts": n, "rate": 8000, "low_hz": 20.0, "high_hz": None, "analytic": a}, True))
+    ns = list(range(3, 61 if quick else 101))
+    for n in ns:
+        for rate in (8000, 16000):
+            for a in (False, True):
+                sweep.append(({"bank": "tri", "scale": {"name": "bark"}, "num_filts": n, "rate": rate, "low_hz": 20.0, "high_hz": None, "analytic": a}, False))
+    for _ in range(40 if quick else 400):
+        rate = [8000, 11025, 16000, 22050, 44100][int(rng.integers(5))]
+        top = rate / 2.0
+        low = float(np.round(rng.uniform(0.0, 150.0), 2))
+        high = float(np.round(rng.uniform(0.8 * top, top), 2)) if rng.integers(2) else None
+        sweep.append(({"bank": "tri", "scale": {"name": "bark"}, "num_filts": int(rng.integers(3, 64)), "rate": rate, "low_hz": low, "high_hz": high, "analytic": bool(rng.integers(2))}, False))
+    for spec, everything in sweep:
+        if col.out_of_time() or col.too_many_failures() or time.time() - t_b > (8 if quick else 90):
+            break
+        bank = build(spec)
+        if bank is None:
+            continue
+        n = spec["num_filts"]
+        lh = left_heavy(bank, n)
+        counts["sweep_banks"] = counts.get("sweep_banks", 0) + 1
+        counts["sweep_left"] = counts.get("sweep_left", 0) + len(lh)
+        if everything:
+            filts = list(range(n))
+        else:
+            filts = sorted(set(lh[:3]) | {min(n - 1, k + 1) for k in lh[:1]})
+        if filts:
+            counts["banks"] += 1
+            visit(bank, spec, filts, mults=((1, 0), (1, 1), (2, 0), (4, 0)) if everything else ((1, 0), (1, 1), (2, 1)))
+
+    # --- C. sessions: many requests on one bank object ------------------------------------------------------
+    phase_t['bark sweep'] = time.time() - t_b
+    t_c = time.time()
+    n_sessions = 0
+    sess_cap = 3000 if quick else 12000
+    for spec in core + defaults + ([] if quick else [grid[i] for i in order[:200]]):
+        if col.out_of_time() or col.too_many_failures() or time.time() - t_c > (6 if quick else 80):
+            break
+        if not _in_domain(spec):
+            continue
+        bank = build(spec)
+        if bank is None:
+            continue
+        n = spec["num_filts"]
+        ks = {int(rng.integers(0, n))}
+        if spec["bank"] == "tri":
+            ks.update(left_heavy(bank, n)[:1])
+        for k in sorted(ks):
+            try:
+                w0 = _w0(bank, k)
+            except Exception:
+                continue  # reported by the grid walk
+            if 3 * w0 > sess_cap:
+                continue
+            ops = _session_ops(w0, rng, sess_cap)
+            case = {"bank": spec, "filt": k, "ops": ops}
+            fails, nontrivial, info = _check_session(F, S, spec, k, ops, thr)
+            n_sessions += 1
+            counts["session_requests"] = counts.get("session_requests", 0) + len(ops)
+            col.case(case, nontrivial=nontrivial, sample=case if n_sessions == 1 else None)
+            for clause, msg in fails:
+                key = (clause, spec["bank"])
+                dup[key] = dup.get(key, 0) + 1
+                if dup[key] <= 2:
+                    col.fail(clause, case, msg)
+
+    phase_t['sessions'] = time.time() - t_c
+    # --- D. the grid -----------------------------------------------------------------------------------------
     def _specs():
         for sp in core:
             yield sp
@@ -314,38 +645,32 @@ def run(tier, seed):
             break
         if n_spec >= len(core) and n_spec % 5 == 4:
             spec = _random_spec(rng)
-        try:
-            bank = _build(F, S, spec)
-        except Exception as e:
-            col.case({"bank": spec, "filt": -1, "width": 0}, nontrivial=True)
-            col.fail("C07.idft_matches_impulse", {"bank": spec, "filt": 0, "width": None, "mult": 1}, f"constructor raised {type(e).__name__}: {e}")
+        bank = build(spec)
+        if bank is None:
             continue
         counts["banks"] += 1
         n = spec["num_filts"]
         if n <= 11:
             filts = list(range(n))
         else:
-            filts = sorted({0, 1, n // 2, n - 2, n - 1, int(rng.integers(0, n)), int(rng.integers(0, n))})
-        for k in filts:
-            if col.out_of_time():
-                break
-            try:
-                w0 = _w0(bank, k)
-            except Exception as e:
-                col.case({"bank": spec, "filt": k, "width": 0}, nontrivial=True)
-                col.fail("C07.outside_supports_hz", {"bank": spec, "filt": k, "width": None, "mult": 1}, f"supports unusable: {type(e).__name__}: {e}")
-                continue
-            counts["filters"] += 1
-            for w in (w0, w0 + 1, 2 * w0, 4 * w0):
-                if w > wcap:
-                    counts["capped"] += 1
-                    continue
-                do(bank, spec, k, w)
+            extra_k = left_heavy(bank, n)[:3] if spec["bank"] == "tri" else []
+            filts = sorted({0, 1, n // 2, n - 2, n - 1, int(rng.integers(0, n)), int(rng.integers(0, n))} | set(extra_k))
+        visit(bank, spec, filts)
     extra = {k: v - 2 for k, v in dup.items() if v > 2}
     if extra:
         col.note("further failing cases not listed (same clause and bank class): " + ", ".join(f"{c}/{b}: {v}" for (c, b), v in sorted(extra.items())))
     col.note("measured worst value / threshold (allowed: idft 2, t_out 2, f_out 2.5): " + ", ".join(f"{k} {v:.3f}" for k, v in sorted(worst.items())))
     col.note(f"banks {counts['banks']}, filters {counts['filters']}, (filter, width) pairs skipped because width > {wcap}: {counts['capped']}")
+    col.note(
+        f"default configurations (40 filters, 16 kHz, 20 Hz..Nyquist, every bank class x scale, all filters): {counts.get('defaults', 0)}/{len(defaults)}; "
+        f"Bark break-point sweep: {counts.get('sweep_banks', 0)}/{len(sweep)} banks, {counts.get('sweep_left', 0)} filters found on the left-heavy path; "
+        f"sessions (one bank object, many requests): {n_sessions} with {counts.get('session_requests', 0)} requests"
+    )
+    col.note(
+        "triangular impulse response, distinct (bank, filter) checked per code path [right-heavy: right-mid > mid-left | else (of which the halves differ by > 1e-6, smallest (right-mid)/(mid-left))]: "
+        + "; ".join(f"{sc} {b['right']} | {b['left']} ({b['material']}, {b['min']:.4f})" for sc, b in sorted(branch.items()))
+        + "  (mel and octave are strictly concave: the else path is unreachable through the constructor)"
+    )
     return col.result(
         rule="one case per (bank configuration, filter index, buffer width); widths w0, w0+1, 2 w0, 4 w0 with w0 = max(temporal support, ceil(2 rate / bandwidth)) read off the bank's supports / supports_hz; every case is inside the statement's domain and exercises all clauses (non-trivial)",
         bound=(
